@@ -367,7 +367,10 @@ fn make_cfg(fam: &str, v: &[u16; 4], vf: &[f64; 4]) -> OpCfg {
             tag = t.to_string();
             let x0 = [0.0, 4321000.0][pick(v[3], 2)];
             let y0 = [0.0, 3210000.0][split(vf[1], 2).0];
-            num = vec![lon_c, lat_c, x0, y0, 1.0];
+            // num[5]: the radius 2 Rq of the disc onto which the polar aspects map the ellipsoid (for the
+            // oblique / equatorial aspects the image is an ellipse with semi-axes 2 Rq D and 2 Rq / D, D ~ 1.0004..1.0011)
+            let (_, ea, erf) = vcore::refmath::PROJ_ELLIPSOIDS.iter().find(|e| e.0 == ell).expect("ellipsoid in the reference table");
+            num = vec![lon_c, lat_c, x0, y0, 1.0, 2.0 * El::from_rf(*ea, *erf).rq()];
             format!("laea lat_0={lat_c} lon_0={lon_c} x_0={x0} y_0={y0} ellps={ell}")
         }
         "omerc" => {
@@ -771,6 +774,7 @@ fn gen_proj(cfg: &OpCfg, fwd: bool, sel: u8, u: &[f64; 6]) -> (P4, Cls, bool) {
     let (z, t) = (zsel(u[4]), tsel(u[5]));
     let rad = |lon: f64, lat: f64| (lon.to_radians(), lat.to_radians());
     let pole_draw = split(u[3], 6).0 == 0;
+    let antipode_draw = matches!(split(u[3], 6).0, 1 | 2);
     let near_pole = |sign: f64| sign * (FRAC_PI_2 - [0.0, 0.0, 1.0e-11, 5.0e-11][split(split(u[3], 6).1, 4).0]);
     let interior = || -> (f64, f64) {
         match fam {
@@ -791,6 +795,12 @@ fn gen_proj(cfg: &OpCfg, fwd: bool, sel: u8, u: &[f64; 6]) -> (P4, Cls, bool) {
                 let near = if lat_c >= 0.0 { 1.0 } else { -1.0 };
                 let s = if lat_c.abs() <= 60.0 && u[1] < 0.5 { -near } else { near };
                 (lerp(u[0], -PI, PI), near_pole(s))
+            }
+            // 0.05..8 degrees from the antipode of the centre, all azimuths: still inside the forward domain,
+            // their images lie in the outermost 0.25 % of the image ellipse
+            "laea" if antipode_draw && cfg.tag != "polar" => {
+                let delta = 0.05 + 7.95 * u[1] * u[1];
+                sphere_direct((lon_c + 180.0).to_radians(), (-lat_c).to_radians(), u[0] * 2.0 * PI, delta.to_radians())
             }
             "laea" => match cfg.tag.as_str() {
                 "polar" => {
@@ -893,7 +903,10 @@ fn gen_proj(cfg: &OpCfg, fwd: bool, sel: u8, u: &[f64; 6]) -> (P4, Cls, bool) {
             6 => {
                 let p = match fam {
                     "laea" => {
-                        let (r, az) = (lerp(u[0], 1.1e7, 1.5e7), u[1] * 2.0 * PI);
+                        // half of them in a band of +-1 % around the rim radius 2 Rq, the rest 1.1e7..1.5e7 m
+                        let rim = cfg.num[5].0;
+                        let r = if split(u[3], 2).0 == 0 { rim * lerp(u[0], 0.99, 1.01) } else { lerp(u[0], 1.1e7, 1.5e7) };
+                        let az = u[1] * 2.0 * PI;
                         (x0 + r * az.sin(), y0 + r * az.cos())
                     }
                     _ => (x0 + lerp(u[0], -1.0, 1.0) * 1.0e8, y0 + lerp(u[1], -1.0, 1.0) * 1.0e8),
@@ -1224,6 +1237,11 @@ fn check_tuple(cfg: &OpCfg, fwd: bool, tr: &Traits, tup: &Tup, before: &Coor4D, 
         if !all_finite(after) {
             return fail("interior-not-finite", "the tuple lies in the interior of the documented domain and is NaN-free, but the result is not finite");
         }
+    }
+    // laea inverse: the operator tests its domain explicitly in every aspect, so a counted tuple is a
+    // transformed one: a NaN-free input never comes back counted and NaN
+    if cfg.fam == "laea" && !fwd && nan_free_input && count == 1 && has_nan(after) {
+        return fail("counted-but-nan", "NaN-free input, counted as a success, but the result carries NaN (a counted tuple must be a transformed one)");
     }
     // (4) elements the operator does not work on: bit-identical for every transformed tuple
     if !tr.exempt && count == 1 {
@@ -1926,6 +1944,27 @@ fn classify_multi(grids: &[GridSpec], lon: f64, lat: f64, null: bool) -> (Cls, S
     (Cls::Edge, "edge".into())
 }
 
+/// Inverse 2-band gridshift iterates and looks the grids up again at positions moved by about one
+/// correction. Where the grid selected by the documented rule can change within that distance and the
+/// grids disagree, the combined correction field jumps and the fixed-point iteration need not converge
+/// (the property's own "non-convergence" class). True iff the whole neighbourhood of the point
+/// (3 x the largest generated correction, 1 arcsec, i.e. 0.001 degree, plus the 0.05 cell guard band:
+/// `eps` = 0.06 cell for cells >= 0.25 degree) selects the same grid: the same grid proper with no
+/// earlier grid proper nearby, or the same margin grid with no grid proper and no earlier margin nearby.
+fn stable_selection(grids: &[GridSpec], lon: f64, lat: f64) -> bool {
+    let eps = 0.06;
+    if let Some(k) = grids.iter().position(|g| within(g, lon, lat, -eps)) {
+        return grids[..k].iter().all(|g| !within(g, lon, lat, eps));
+    }
+    if grids.iter().any(|g| within(g, lon, lat, eps)) {
+        return false;
+    }
+    match grids.iter().position(|g| within(g, lon, lat, 0.5 - eps)) {
+        Some(k) => grids[..k].iter().all(|g| !within(g, lon, lat, 0.5 + eps)),
+        None => false,
+    }
+}
+
 const MULTI_FAMILIES: [&str; 4] = ["gridshift2", "gridshift1", "deflection", "deformation"];
 
 fn build_multi(f: u16, v: &[u16; 4], vf: &[f64; 4], fwd: bool, raw: &[RawTup]) -> MultiCase {
@@ -2014,7 +2053,11 @@ fn build_multi(f: u16, v: &[u16; 4], vf: &[f64; 4], fwd: bool, raw: &[RawTup]) -
             8 => beyond(lerp(r, -0.06, 0.6)),
             _ => (lerp(u[0], -180.0, 180.0), lerp(u[1], -80.0, 80.0)),
         };
-        let (cls, pl) = classify_multi(&grids, lon, lat, null);
+        let (mut cls, mut pl) = classify_multi(&grids, lon, lat, null);
+        if famx == "gridshift2" && !fwd && cls == Cls::Interior && !stable_selection(&grids, lon, lat) {
+            cls = Cls::Edge;
+            pl = format!("excluded-unstable-selection({pl})");
+        }
         let p = match famx {
             "gridshift2" => p4(lon.to_radians(), lat.to_radians(), zsel(u[4]), tsel(u[5])),
             "gridshift1" => p4(lon.to_radians(), lat.to_radians(), lerp(u[4], -500.0, 5000.0), tsel(u[5])),
@@ -2071,7 +2114,16 @@ fn check_multi(case: &MultiCase, rec: &mut Rec) -> CaseResult {
     }
     let mut inputs = vec![];
     let mut mixed = [false; 2];
+    let iterating_inverse = cfg.fam == "gridshift" && cfg.tag.split(' ').any(|x| x == "datum") && !fwd;
     for (t, pl) in case.tups.iter().zip(&case.place) {
+        // the strong clauses of an iterating inverse need a stable grid selection around the point
+        // (recomputed here from the tuple itself, so that stored cases are judged by the same rule)
+        let mut t = t.clone();
+        if iterating_inverse && t.cls == Cls::Interior && !stable_selection(&case.grids, t.p[0].0.to_degrees(), t.p[1].0.to_degrees()) {
+            t.cls = Cls::Edge;
+            rec.count("excluded_unstable_selection_downgraded_in_oracle", 1);
+        }
+        let t = &t;
         let mut before = c4(&t.p);
         for k in 0..4 {
             if t.mask & (1 << k) != 0 {
@@ -2103,7 +2155,12 @@ fn check_multi(case: &MultiCase, rec: &mut Rec) -> CaseResult {
     let n = batch.len();
     let count = run_apply(&ctx, op, fwd, &mut batch, &cfg.def)?;
     {
-        let must = case.tups.iter().zip(&inputs).filter(|(t, c)| t.cls == Cls::Interior && !has_nan(c)).count();
+        let must = case
+            .tups
+            .iter()
+            .zip(&inputs)
+            .filter(|(t, c)| t.cls == Cls::Interior && !has_nan(c) && !(iterating_inverse && !stable_selection(&case.grids, t.p[0].0.to_degrees(), t.p[1].0.to_degrees())))
+            .count();
         let must_not = case.tups.iter().zip(&inputs).filter(|(t, c)| t.cls == Cls::Far && !has_nan(c)).count();
         let nan_free_out = batch.iter().filter(|c| !has_nan(c)).count();
         vensure!(count <= n, format!("count-exceeds-len@multigrid-{label}"), "'{}' reports {count} successes for {n} tuples", cfg.def);
@@ -2126,13 +2183,15 @@ const GRID_FAMILIES: [&str; 3] = ["gridshift", "deflection", "deformation"];
 
 fn main() {
     let mut run = Run::init("C10");
-    run.assume("domain classes: 'Interior' is the documented domain conservatively shrunk (tmerc/utm: |lon-lon_0|<=60°, |lat|<=89°; btmerc: 3°; merc: |lat|<=85°; lcc: up to 89° on the apex side and 60° beyond the equator, plus the apex pole itself, the apex hemisphere being the sign of n = ln(m1/m2)/ln(t1/t2) computed in the harness; exact poles (and poles - 1e-11 rad) are also interior for tmerc/utm/btmerc/butm and for laea when within 150° of the centre; laea: within 150° of the centre; omerc/somerc: 3° around the centre; grids: inside the nominal bounds shrunk by 0.1 cell + 0.01°; cart inv: geocentric radius 6.34e6..2e7 m incl. the axis; geodesic: |lat|<=89°, 1 m..19000 km, inverse separation 0.001°..170°); 'Far' only where the code declares a limit (tmerc strip: normalised easting > 2.6234, taken at |lat|<=3° and 87..93° from the central meridian, the inverse limit is asserted directly from the source's constant: |x-x_0| <= 2.623395162778·k_0·a·Qn·(1-1e-9) must be counted and finite, >= ·(1+1e-9) NaN-marked and uncounted, on both sides, for x_0 in {0, 500000, -3e6, -20000} and every utm zone, Qn from the published a, 1/f; laea disc: > 1.5e7 m from the false origin; lcc: the pole opposite the apex within the operator's 1e-10 rad; grids: more than 0.8 cell beyond the border, the half-cell margin being coverage); everything else gets only count<=len, 'uncounted => NaN', untouched axes and NaN propagation");
+    run.assume("domain classes: 'Interior' is the documented domain conservatively shrunk (tmerc/utm: |lon-lon_0|<=60°, |lat|<=89°; btmerc: 3°; merc: |lat|<=85°; lcc: up to 89° on the apex side and 60° beyond the equator, plus the apex pole itself, the apex hemisphere being the sign of n = ln(m1/m2)/ln(t1/t2) computed in the harness; exact poles (and poles - 1e-11 rad) are also interior for tmerc/utm/btmerc/butm and for laea when within 150° of the centre; laea: within 150° of the centre, and (oblique / equatorial aspects) 0.05°..8° from the antipode of the centre in all azimuths; omerc/somerc: 3° around the centre; grids: inside the nominal bounds shrunk by 0.1 cell + 0.01°; cart inv: geocentric radius 6.34e6..2e7 m incl. the axis; geodesic: |lat|<=89°, 1 m..19000 km, inverse separation 0.001°..170°); 'Far' only where the code declares a limit (tmerc strip: normalised easting > 2.6234, taken at |lat|<=3° and 87..93° from the central meridian, the inverse limit is asserted directly from the source's constant: |x-x_0| <= 2.623395162778·k_0·a·Qn·(1-1e-9) must be counted and finite, >= ·(1+1e-9) NaN-marked and uncounted, on both sides, for x_0 in {0, 500000, -3e6, -20000} and every utm zone, Qn from the published a, 1/f; laea disc: > 1.5e7 m from the false origin; lcc: the pole opposite the apex within the operator's 1e-10 rad; grids: more than 0.8 cell beyond the border, the half-cell margin being coverage); everything else gets only count<=len, 'uncounted => NaN', untouched axes and NaN propagation");
     run.assume("inverse-direction interior tuples of plane projections are images of interior geographic points under the library's own forward (so they are in the operator's range whatever its formulas); if that forward pre-step fails the tuple is skipped here and judged by the forward cases");
+    run.assume("laea inverse (every aspect tests its domain explicitly): a NaN-free input that is counted must come back NaN-free, for inputs of every class incl. a dense +-1 % band around the rim radius 2·Rq in all azimuths (asserted; holds on the unchanged tree in quick and thorough); for all other operators such tuples are only tallied");
     run.assume("counting a NaN-in/NaN-out tuple as a success is not flagged; a NaN-free tuple outside the Interior class that is counted although its result carries NaN is only tallied (counter nanfree_in_nan_out_but_counted)");
     run.assume("no infinities are generated (IEEE hypot(inf, NaN) = inf would make the NaN clause unsound); an epoch of -0.0 is not generated for `deformation` (it adds +0.0 to the fourth element, so -0.0 would come back as +0.0: pedantic, excluded by construction)");
     run.assume("dependency table transcribed from the sources; left out: deflection with @null and a NaN position (undocumented), deformation with @null (pass-through: identity only), the epoch dependency of deformation with @null; geodesic/gravity/curvature/deflection (look-up helpers) are exempt from the untouched-axes clause; deformation `raw` replaces the fourth element by design");
     run.assume("grid lists consisting only of unavailable optional (@-prefixed) grids instantiate with an empty list (documented: optional grids do not block instantiation); every point is then outside coverage: without @null it must be NaN-marked and not counted, with @null passed through and counted (gridshift both directions, deflection, deformation both directions; one configuration in five)");
     run.assume("time dependent operators: one tuple epoch in four is exactly the t_epoch (deformation: 2010; helmert: 1988, 2010, and t_obs 2020) of the catalogue's configurations, in every coverage class; deformation is also instantiated with dt=0 exactly; a zero duration is an ordinary in-domain value (result = input, counted) inside coverage and changes nothing about the outside-coverage clause");
+    run.assume("multi-grid, inverse 2-band gridshift (the only grid operator that looks the grids up again at moved positions): 'hit => counted, finite, shifted' is asserted only where the whole neighbourhood of the point (0.06 cell = 3 x the largest generated correction + guard band) selects the same grid by the documented rule; where the selection can change within one correction and the grids disagree the combined field jumps and non-convergence (NaN, uncounted) is the documented outcome: weak clauses only, counted as excluded-unstable-selection");
     run.assume("multi-grid: positions are classified in the harness from the grid headers with guard bands of 0.05 cell (inside any grid shrunk by 0.05 cell, or within 0.45 cell of some grid => hit; beyond 0.55 cell of every grid => outside; in between => edge, weak clauses only); generated node values and deformation durations are non-zero, so a hit cannot come back bit-identical");
     run.assume("stand-alone push/pop/stack steps act only inside a pipeline: reporting 0 with the data untouched is accepted for them; pipelines containing a one-way operator are only checked for count = min over the steps (data legitimately stays finite)");
     run.assume("origin-shift: the unshifted input is recomputed with the subtraction the operator itself performs (x - x_0, y - y_0, lon - lon_0), so both operators see bit-identical reduced values; points where the unshifted operator's outcome changes within 1e-9 relative (+1 mm) / 1e-9 rad are excluded (counter excluded_unstable_neighbourhood); only the pattern (count, which elements are NaN) is compared, values belong to C13");
